@@ -1,13 +1,14 @@
 SPECIFICATION Spec
 CONSTANTS
-  MaxPage = 9
-  MaxTx = 3
-  MaxReaders = 2
-  MaxEdits = 2
-  SyncBeforeMeta = FALSE
+  MaxPage = 7
+  MaxTx = 2
+  MaxReaders = 0
+  MaxEdits = 1
+  SyncBeforeMeta = TRUE
   PublishOnError = FALSE
   Crashes = {}
-  Faults = FALSE
+  Faults = TRUE
+  MaxFaults = 2
   Damages = FALSE
 INVARIANT TypeOK
 INVARIANT ReaderPinned
